@@ -84,7 +84,10 @@ func c10(r *h.Result, rng *h.Rng, tier string, replay string) error {
 		"tempo: 400 / 12000: 3/4 searches with 0–3 tags (names/values hostile valid UTF-8, literal or quoted syntax; the four conditions; from/to/min/max/limit at 0 and not; schema version flag on/off/late), 1/4 trace-by-id + tag-values with arbitrary bytes. " +
 		"shape-metric: 400 / 12000 metric queries of C08's generator (range / vector aggregation / topk, unwrap, by/without, comparisons, ms durations) paired the same way. " +
 		"shape: 400 / 12000 queries of C07's extended generator, each paired with a copy whose string leaves are all replaced (hostile text), distinct by pair. " +
-		"text/tags/fpsql/profsql/textx/model-series: the generators of C07, C08, C11, C17, C07ext, C13, 150 (quick) / 3000 cases each"
+		"shape-metricx: 400 / 12000 metric queries of C08's labelled-path generator (| json / | regexp / | drop inside the selector, quantile_over_time) paired the same way. " +
+		"shape-traceql: 400 / 12000 TraceQL scripts of C11's generator (1–3 selectors, nested and/or, aggregators, repeated terms; every 23rd a `{}` form), half through Plan, a quarter each through PlanTagsV2 / PlanValuesV2, paired with a copy whose attribute names (behind the scope prefix), string values and aggregated attribute are replaced injectively. " +
+		"prof-segs: 300 / 6000 Pyroscope plans, the ten statement kinds in turn, 0–3 selectors (names from the label / pseudo-label pools, values: 30% random bytes, else hostile fragments, half of them repaired to valid UTF-8), type-id parts, 0–2 group_by / label_names entries, label; each built a second time with harmless strings. " +
+		"text/tags/fpsql/profsql/textx/model-series/model-prof-plans/promlabels: the generators of C07, C08, C11, C17, C07ext, C13, C08ext, C13 (Pyroscope plans), C17 (Prometheus metadata endpoints through the real router), 150 (quick) / 3000 cases each"
 	if err := c10Escape(r, rng.Fork(), n); err != nil {
 		return err
 	}
@@ -133,6 +136,12 @@ func c10(r *h.Result, rng *h.Rng, tier string, replay string) error {
 	if err := c10ShapeMetric(r, rng.Fork(), no); err != nil {
 		return err
 	}
+	if err := c10ShapeMetricX(r, rng.Fork(), no); err != nil {
+		return err
+	}
+	if err := c10ShapeTraceQL(r, rng.Fork(), no); err != nil {
+		return err
+	}
 	if err := c10Census(r); err != nil {
 		return err
 	}
@@ -166,6 +175,21 @@ func c10(r *h.Result, rng *h.Rng, tier string, replay string) error {
 		return err
 	}
 	if err := c13ModelSeries(r, rng.Fork(), nt); err != nil {
+		return err
+	}
+	// … plan_closed_prof_* (C13's byte-equal tie of the Pyroscope `Sel` terms, and the tie of the C10 segment views themselves)
+	// and plan_closed_prom_labels / _values / _series (C17's tie of the Prometheus metadata statements through the real router)
+	if err := c13ModelProfPlans(r, rng.Fork(), nt); err != nil {
+		return err
+	}
+	if err := c10ProfSegs(r, rng.Fork(), 2*nt); err != nil {
+		return err
+	}
+	if err := c17LblStream(r, rng.Fork(), nt); err != nil {
+		return err
+	}
+	// … plan_closed_metricx / same_shape_metricx (C08's text tie of the labelled metric path)
+	if err := c08TextX(r, rng.Fork(), nt, mgen{extraFns: true, ms: true}); err != nil {
 		return err
 	}
 	return nil
